@@ -118,7 +118,7 @@ func c09Exec(run *ev.Run, c ev.Case) {
 		if b.Random > 0 {
 			r := rng(b.Seed, "c09random")
 			h := c09Hist{Suite: r.Intn(9)}
-			kinds := []string{"devid", "authcaps", "chassis", "raw", "serfail", "sl-authcaps", "sl-guid", "sl-authcaps", "sl-newsession"}
+			kinds := []string{"devid", "authcaps", "chassis", "raw", "serfail", "sl-authcaps", "sl-guid", "sl-authcaps", "sl-newsession", "badlun", "badlun7"}
 			for i := 0; i < b.Random; i++ {
 				k := kinds[r.Intn(len(kinds))]
 				var sc []string
@@ -149,6 +149,16 @@ func c09Exec(run *ev.Run, c ev.Case) {
 			// calls made with a context that is already finished, between ordinary commands
 			kinds := []string{"devid", "authcaps", "chassis", "raw", "sl-guid", "sl-authcaps"}
 			idx := 0
+			for _, bl := range []string{"badlun", "badlun7", "serfail"} {
+				for n := 0; n <= 2; n++ {
+					var cmds []c09Cmd
+					for i := 0; i < n; i++ {
+						cmds = append(cmds, c09Cmd{Kind: kinds[(i+len(bl))%4]})
+					}
+					cmds = append(cmds, c09Cmd{Kind: bl}, c09Cmd{Kind: "devid"}, c09Cmd{Kind: bl}, c09Cmd{Kind: "raw", Script: []string{"busy"}})
+					c09History(run, c09Hist{Suite: n + len(bl), Cmds: cmds})
+				}
+			}
 			for _, k1 := range kinds {
 				for _, k2 := range kinds[:4] {
 					for n := 1; n <= 3; n++ {
@@ -229,6 +239,14 @@ func c09Call(kind string, sess *bmc.V2Session, st *bmc.V2SessionlessTransport) (
 		return func(ctx context.Context) (ipmi.CompletionCode, error) { return sess.SendCommand(ctx, cmd) }, nil, 0
 	case "raw":
 		cmd := &RawCmd{Op: ipmi.Operation{Function: ipmi.NetworkFunctionAppReq, Command: 0x42}, Req: []byte{9, 8, 7, 6, 5}}
+		return func(ctx context.Context) (ipmi.CompletionCode, error) { return sess.SendCommand(ctx, cmd) }, []byte{0xaa, 0xbb}, 0
+	case "badlun":
+		// a caller-defined command whose LUN does not fit the two wire bits: whatever the
+		// library makes of it, the numbering of what it transmits must stay intact
+		cmd := &RawCmd{Op: ipmi.Operation{Function: ipmi.NetworkFunctionAppReq, Command: 0x42}, LUN: ipmi.LUN(4 + len(kind)%4), Req: []byte{1, 2, 3}}
+		return func(ctx context.Context) (ipmi.CompletionCode, error) { return sess.SendCommand(ctx, cmd) }, []byte{0xaa, 0xbb}, 0
+	case "badlun7":
+		cmd := &RawCmd{Op: ipmi.Operation{Function: ipmi.NetworkFunctionAppReq, Command: 0x42}, LUN: 7, NoReq: true}
 		return func(ctx context.Context) (ipmi.CompletionCode, error) { return sess.SendCommand(ctx, cmd) }, []byte{0xaa, 0xbb}, 0
 	case "serfail":
 		cmd := &ipmi.SetSessionPrivilegeLevelCmd{Req: ipmi.SetSessionPrivilegeLevelReq{PrivilegeLevel: ipmi.PrivilegeLevelCallback}}
@@ -312,6 +330,14 @@ func c09History(run *ev.Run, h c09Hist) {
 			nontrivial = true
 		}
 		sessionless := strings.HasPrefix(cmd.Kind, "sl-")
+		for si := 1; si < len(res.Sends); si++ {
+			// every attempt is given its own time allowance: an attempt handed the deadline of
+			// an earlier one would, once that has passed, consume a number without being sent
+			if p, q := res.Sends[si-1], res.Sends[si]; !sessionless && p.HasDeadline && q.HasDeadline && !q.CtxDone && !q.Deadline.After(p.Deadline) {
+				run.Violation("C09:attempt-reuses-deadline", fmt.Sprintf("command %d (%s, script %v): transmission %d was handed the same deadline as transmission %d", ci, cmd.Kind, cmd.Script, si+1, si), cs, nil)
+				return
+			}
+		}
 		for si, s := range res.Sends {
 			if s.CtxDone {
 				continue
